@@ -17,6 +17,7 @@ import (
 
 	"github.com/vulcand/oxy/v2/internal/holsterv4/clock"
 	"github.com/vulcand/oxy/v2/roundrobin"
+	"github.com/vulcand/oxy/v2/roundrobin/stickycookie"
 	"github.com/vulcand/oxy/v2/verifharness/vstat"
 	"pgregory.net/rapid"
 )
@@ -190,9 +191,14 @@ func TestC02_PoolMembership(t *testing.T) {
 		}
 		var rrOpts []roundrobin.LBOption
 		var rbOpts []roundrobin.RebalancerOption
+		// the affinity cookie carries the server URL itself or (a share of the cases) its salted hash
+		var cookieCodec stickycookie.CookieValue = &stickycookie.RawValue{}
+		if sticky && rapid.IntRange(0, 2).Draw(t, "hashedCookie") == 0 {
+			cookieCodec = &stickycookie.HashValue{Salt: rapid.SampledFrom([]string{"", "pepper"}).Draw(t, "salt")}
+		}
 		if sticky {
-			rrOpts = append(rrOpts, roundrobin.EnableStickySession(roundrobin.NewStickySession("sid")))
-			rbOpts = append(rbOpts, roundrobin.RebalancerStickySession(roundrobin.NewStickySession("sid")))
+			rrOpts = append(rrOpts, roundrobin.EnableStickySession(roundrobin.NewStickySession("sid").SetCookieValue(cookieCodec)))
+			rbOpts = append(rbOpts, roundrobin.RebalancerStickySession(roundrobin.NewStickySession("sid").SetCookieValue(cookieCodec)))
 		}
 		// a request-rewrite listener (public option) sees the client's request and the re-targeted one
 		withListener := rapid.IntRange(0, 2).Draw(t, "rewriteListener") == 0
@@ -302,7 +308,11 @@ func TestC02_PoolMembership(t *testing.T) {
 			}
 			req := httptest.NewRequest("GET", "http://client/c", nil)
 			if cookie != "" {
-				req.AddCookie(&http.Cookie{Name: "sid", Value: cookie})
+				v := cookie
+				if cu, err := url.Parse(cookie); err == nil {
+					v = cookieCodec.Get(cu)
+				}
+				req.AddCookie(&http.Cookie{Name: "sid", Value: v})
 			}
 			before := renderServers(p)
 			invoked, seenKey, mutate = 0, "", mut
@@ -353,7 +363,35 @@ func TestC02_PoolMembership(t *testing.T) {
 
 		nops := rapid.IntRange(1, 30).Draw(t, "nops")
 		for i := 0; i < nops; i++ {
-			switch rapid.IntRange(0, 9).Draw(t, "op") {
+			switch rapid.IntRange(0, 10).Draw(t, "op") {
+			case 10: // a member is replaced by a new server while a client still holds its cookie
+				if !sticky || len(m.es) == 0 {
+					break
+				}
+				j := rapid.IntRange(0, len(m.es)-1).Draw(t, "replaced")
+				old := m.es[j]
+				log = append(log, fmt.Sprintf("replace(%s)", old.spell))
+				request(true, old.spell, 0)
+				ou, _ := url.Parse(old.spell)
+				if err := p.RemoveServer(ou); err != nil {
+					t.Fatalf("remove(%s): %v", old.spell, err)
+				}
+				if err := twin.RemoveServer(ou); err != nil {
+					t.Fatalf("twin remove: %v", err)
+				}
+				m.es = append(m.es[:j], m.es[j+1:]...)
+				nu := genURL(t, "replacement")
+				if m.find(key(nu)) < 0 {
+					pendingMeter = &adjMeter{}
+					if err := p.UpsertServer(nu); err != nil {
+						t.Fatalf("upsert(%s): %v", nu, err)
+					}
+					if err := twin.UpsertServer(nu); err != nil {
+						t.Fatalf("twin upsert: %v", err)
+					}
+					m.es = append(m.es, entry{key: key(nu), w: 1, spell: nu.String(), meter: pendingMeter})
+				}
+				request(true, old.spell, 0) // the old cookie names a server that is gone
 			case 0, 1, 2: // upsert
 				u := genURL(t, "u")
 				k := key(u)
